@@ -8,7 +8,7 @@ namespace Monorail.Driver
     answer : {"wf":b,"model":{"ok":[[..]]}|{"err":"dup_label"},"oracle":"ok"|"skip"|"fail","witness":[i,j]} -/
 def handleC10 (j : Json) : Except String Json := do
   let cfg ← configOf j
-  let wf := wfB cfg
+  let wf := wfDB cfg
   let model : Json :=
     if hasDupPath cfg then Json.mkObj [("err", Json.str "dup_label")]
     else
@@ -22,7 +22,7 @@ def handleC10 (j : Json) : Except String Json := do
   | .ok (.arr a) =>
     let obs ← natListsOf a
     if !wf then pure (Json.mkObj (base ++ [("oracle", Json.str "skip")]))
-    else match c10Mismatch cfg obs with
+    else match c10MismatchD cfg obs with
       | none => pure (Json.mkObj (base ++ [("oracle", Json.str "ok")]))
       | some (i, k) => pure (Json.mkObj (base ++ [("oracle", Json.str "fail"), ("witness", jNats [i, k])]))
   | _ => pure (Json.mkObj (base ++ [("oracle", Json.str "none")]))
